@@ -19,6 +19,8 @@ def kwargs_for(h):
         kw["encoding"] = enc
     if h % 3 == 1:
         kw["flush_on_insert"] = False
+    if h % 5 == 4:
+        kw["access_mode"] = "w+"
     return kw
 
 
